@@ -75,6 +75,52 @@ def parse_ev(tok):
     return "Ev.%s %s %s" % (m.group(1), m.group(2), m.group(3))
 
 
+def _body_after(txt, sig):
+    """text of the brace block that follows the first occurrence of `sig`"""
+    i = txt.find(sig)
+    if i < 0:
+        raise TranslateError("assignment operator not found: " + sig)
+    j = txt.index("{", i)
+    depth, k = 0, j
+    while True:
+        if txt[k] == "{": depth += 1
+        elif txt[k] == "}":
+            depth -= 1
+            if depth == 0: break
+        k += 1
+    return re.sub(r"//[^\n]*", "", txt[j:k + 1])
+
+
+def assign_orders(repo):
+    """which of the three steps (increment the source's count, store into the destination place, release the old object) the copy
+    assignment of each handle class performs in which order, read from the operator's own statements"""
+    def order(body, pats, what):
+        pos = {}
+        for step, pat in pats.items():
+            m = re.search(pat, body)
+            if not m:
+                raise TranslateError("%s: statement for %r not found in %r" % (what, step, body[:300]))
+            pos[step] = m.start()
+        seq = sorted(pos, key=lambda k: pos[k])
+        return {("inc", "store", "rel"): "array", ("store", "inc", "rel"): "shared", ("inc", "rel", "store"): "smart"}.get(tuple(seq), "unknown")
+    rd = lambda f: open(os.path.join(repo, "include/asl", f), encoding="latin-1").read().replace("\r", "")
+    res = {}
+    # Array / HashMap: `X old(b);` (copy = increment) ... `bswap(...)` (store) ... closing brace (destructor of old = release)
+    res["array"] = order(_body_after(rd("Array.h"), "Array& operator=(const Array& b)"),
+                         {"inc": r"Array\s+old\s*\(\s*b\s*\)", "store": r"bswap\s*\(", "rel": r"\}\s*$"}, "Array::operator=")
+    mb = _body_after(rd("Map.h"), "void operator=(const Map& b)")
+    if not re.fullmatch(r"\{\s*a\s*=\s*b\.a\s*;\s*\}", mb.strip()):
+        raise TranslateError("Map::operator= no longer delegates to Array::operator=: " + mb)
+    res["map"] = res["array"]
+    res["hashmap"] = order(_body_after(rd("HashMap.h"), "void operator=(const HashMap& b)"),
+                           {"inc": r"HashMap\s+old\s*\(\s*b\s*\)", "store": r"bswap\s*\(", "rel": r"\}\s*$"}, "HashMap::operator=")
+    res["shared"] = order(_body_after(rd("Pointer.h"), "Shared& operator=(const Shared& r)"),
+                          {"store": r"_p\s*=\s*r\._p\s*;", "inc": r"\bref\s*\(\s*\)\s*;", "rel": r"->\s*unref\s*\(\s*\)\s*;"}, "Shared::operator=")
+    res["smart"] = order(_body_after(rd("Shared.h"), "SmartObject& operator=(const SmartObject& n)"),
+                         {"inc": r"\+\+\s*p->rc\s*;", "rel": r"\bunref\s*\(\s*\)\s*;", "store": r"_p\s*=\s*p\s*;"}, "SmartObject::operator=")
+    return res
+
+
 def translate(repo):
     off = atomic_primitive(repo, False)
     on = atomic_primitive(repo, True)
@@ -128,7 +174,11 @@ def translate(repo):
             raise TranslateError("Atomic<T> recorder event: %r" % part)
         val, _, exp = tk[2].split("/")
         aitems.append('  { name := "%s", evs := [%s], value := %s, expected := %s }' % (tk[0], ", ".join("MEv." + e for e in evs), "(%s)" % val, "(%s)" % exp))
-    txt += "def atomicOps : List AtomicOp := [\n" + ",\n".join(aitems) + "]\n\nend Gen.Shapes\n"
+    txt += "def atomicOps : List AtomicOp := [\n" + ",\n".join(aitems) + "]\n\n"
+    ords = assign_orders(repo)
+    txt += "/-- order of (increment source, store into the destination, release the old object) in each copy-assignment operator, read from its statements -/\n"
+    txt += "inductive Ord where\n  | array | shared | smart | unknown\nderiving Repr, DecidableEq\n\n"
+    txt += "def assignOrders : List (String × Ord) := [" + ", ".join('("%s", Ord.%s)' % (k, ords[k]) for k in KINDS) + "]\n\nend Gen.Shapes\n"
     return {"Gen/ShapesGen.lean": txt}
 
 
@@ -409,8 +459,10 @@ LEVEL_NOTE = ("Test-only (no model, no theorem; the driver answers the constant 
               "Shared<Der> -> Shared<Base> copies (5500962), SmartObject::clone (f4a7d71) and Atomic<T> copy assignment next to a busy "
               "source (735352c: judged by a stall watchdog and ThreadSanitizer; the lock discipline of the copy operations themselves "
               "is the recorded obligation atomic_ops_locked). The nested-handle theorems are sequential (one program); they are stated "
-              "for the increment-store-release order of Array/Map/HashMap, the argument why Shared's and SmartObject's orders give the "
-              "same heaps is in the header of AslModel/RcNest.lean and is not mechanised; cyclic heaps are covered by the theorems but "
+              "for the increment-store-release order of Array/Map/HashMap, Shared's order (store, increment, release) is proved to give the same heap "
+              "in every heap (shared_order_same_heap) and SmartObject's order (increment, release, store) whenever the destination's container "
+              "survives the assignment (smart_order_same_heap; always for program variables; smart_order_needs_live_container shows the hypothesis "
+              "is needed); which order each operator has is regenerated from its statements (assignment_orders_known); cyclic heaps are covered by the theorems but "
               "never sampled by K (the generator and the tracing oracle refuse cycles). Trusted: atomicity of __sync builtins, mutual exclusion of pthread mutexes, sequential consistency at hook points, the "
               "scheduler harness. There is no hook point between atomicDec and the test of its result, so a decrement whose result is "
               "re-read instead of tested on return is invisible to the scheduler and rests on the free-running runs (ASan, TSan, "
